@@ -147,20 +147,33 @@ def const_item(file, name):
                [(re.compile(r"^(pub\s+)?const\s+" + name + r"\s*:\s*&\[TokenKind\]"), f"pub exec const {name}: &'static [TokenKind]", 1)])
 
 
-COMMON_ENS = ("final(p).wf(), final(p).same_input(old(p)), events_extend(old(p).events@, final(p).events@), "
+COMMON_ENS = ("final(p).wf(), final(p).same_input(old(p)), events_extend(old(p).events@, final(p).events@, {EX}), "
               "0 <= mu(*final(p)) <= mu(*old(p)), at_eof(*old(p)) ==> at_eof(*final(p)), stay(*old(p), *final(p)),")
-LOOP_INV = "p.wf(), p.same_input(old(p)), events_extend(old(p).events@, p.events@), 0 <= mu(*p) <= mu(*old(p)), at_eof(*old(p)) ==> at_eof(*p), stay(*old(p), *p),"
+LOOP_INV = "p.wf(), p.same_input(old(p)), events_extend(old(p).events@, p.events@, {EX}), 0 <= mu(*p) <= mu(*old(p)), at_eof(*old(p)) ==> at_eof(*p), stay(*old(p), *p),"
+
+
+OPENED_RHS = r"\bp\.open\(\)|\.precede\(p\)"
+CLOSED_RHS = r"\bp\.close\(|\.completed\(p|attribute_list\(p\)|closure_expr\(p\)"
 
 
 def markers_before(fn, upto):
-    """marker variables (params and lets) that are in scope at body offset `upto`"""
-    ms = [n for n, t in fn["params"] if t.split("<")[0].strip() in MARKER_TYPES]
+    """marker variables in scope at body offset `upto`: list of (name, 'o'|'c')  (o: pending MarkerOpened, c: MarkerClosed)"""
+    ms = []
+    for n, t in fn["params"]:
+        t0 = t.split("<")[0].strip()
+        if t0 == "MarkerOpened":
+            ms.append((n, "o"))
+        elif t0 == "MarkerClosed":
+            ms.append((n, "c"))
     mb = fn["mbody"]
     for mt in re.finditer(r"\blet\s+(mut\s+)?([a-z_][a-z_0-9]*)\s*(:\s*\w+\s*)?=\s*([^;{}]*?);", mb[:upto], re.S):
         name, rhs = mt.group(2), mt.group(4)
-        if not re.search(r"\bp\.open\(\)|\.precede\(p\)|\bp\.close\(|\.completed\(p|attribute_list\(p\)|closure_expr\(p\)", rhs):
+        if re.search(OPENED_RHS, rhs):
+            kind = "o"
+        elif re.search(CLOSED_RHS, rhs):
+            kind = "c"
+        else:
             continue
-        # innermost block enclosing the let must still be open at `upto`
         depth, k = 0, mt.start()
         while k > 0:
             k -= 1
@@ -171,9 +184,13 @@ def markers_before(fn, upto):
                     break
                 depth -= 1
         close = match_delim(mb, k)
-        if close > upto and name not in ms:
-            ms.append(name)
+        if close > upto:
+            ms = [(n, kd) for (n, kd) in ms if n != name] + [(name, kind)]
     return ms
+
+
+def mk(kind, ev, name):
+    return f"marker_ok_o({ev}, {name}.index)" if kind == "o" else f"marker_ok({ev}, {name}.index)"
 
 
 def build_items():
@@ -194,10 +211,17 @@ def build_items():
                 items.append(Fn(file=fn["file"], name=name, rules=["T"]))
             continue
         req = ["old(p).wf()"]
+        ex = "-1"
         for n, t in fn["params"][1:]:
-            if t.split("<")[0].strip() in MARKER_TYPES:
+            t0 = t.split("<")[0].strip()
+            if t0 == "MarkerOpened":
+                req.append(f"marker_ok_o(old(p).events@, {n}.index)")
+                ex = f"{n}.index as int"
+            elif t0 == "MarkerClosed":
                 req.append(f"marker_ok(old(p).events@, {n}.index)")
-        ens = [COMMON_ENS]
+        if name in EXTRA_REQ:
+            req.append(EXTRA_REQ[name])
+        ens = [COMMON_ENS.replace("{EX}", ex)]
         ret = fn["ret"]
         rname = None
         if ret:
@@ -217,8 +241,8 @@ def build_items():
         for k, (s, b, kw) in enumerate(find_loops(fn["mbody"])):
             ghost.append((f"@loop:{k}:body", "", "proof { lemma_mu_nonneg(*p); }"))
             ghost.append((f"@loop:{k}:before", "", f"let ghost pl{k} = *p;"))
-            mk = markers_before(fn, s)
-            inv = LOOP_INV + " ".join(f"marker_ok(p.events@, {m}.index)," for m in mk)
+            mks = markers_before(fn, s)
+            inv = LOOP_INV.replace("{EX}", ex) + " ".join(mk(kd, "p.events@", m) + "," for (m, kd) in mks if (name, k, m) not in LOOP_DROP)
             inv += f" mu(*p) <= mu(pl{k}),"
             inv += LOOP_EXTRA.get((name, k), "")
             loops[k] = f"invariant {inv}\ndecreases mu(*p),"
@@ -236,10 +260,14 @@ PROGRESS = {"expect_expr_with_message", "expect_expr_bp_with_message", "match_ar
 BIG = "#[verifier::rlimit(80)]\n#[verifier::spinoff_prover]"
 ATTRS = {"atom": BIG, "extern_decl_with_marker": BIG, "type_atom": BIG, "simple_pattern": BIG, "expr_bp": BIG, "block": BIG}
 EXTRA_ENS = {
-    "file": "at_eof(*final(p)),",
+    "file": "at_eof(*final(p)), balanced(final(p).events@),",
 }
+EXTRA_REQ = {
+    "file": "old(p).events@.len() == 0",
+}
+LOOP_DROP = set()
 LOOP_EXTRA = {
-    ("parse_path_inner", 0): " marker matches Some(mm) ==> marker_ok(p.events@, mm.index),",
+    ("parse_path_inner", 0): " marker matches Some(mm) ==> marker_ok_o(p.events@, mm.index),",
     ("type_expr_bp", 0): " marker_ok(p.events@, lhs.index), mu(*p) < mu(*old(p)),",
     ("expr_bp", 0): " marker_ok(p.events@, lhs.index), mu(*p) < mu(*old(p)),",
     ("attribute_body", 0): " depth as int <= p.input.cursor as int + 1,",
@@ -248,6 +276,8 @@ LOOP_EXTRA = {
 SKIPB = ("proof { reveal(Parser::wf); assert forall|c: int| 0 <= c <= p.input.tokens@.len() implies c <= #[trigger] skip_trivia(p.input.tokens@, c) "
          "by { lemma_skip_trivia_bounds(p.input.tokens@, c); } }")
 GHOST = {
+    "file": [("p.close(m, MySyntaxKind::FILE)", "line-before", "let ghost eb = p.events@; proof { reveal(Parser::wf); }"),
+             ("p.close(m, MySyntaxKind::FILE)", "line-after", "proof { lemma_file_balanced(eb, p.events@); }")],
     "attribute_body": [("@loop:0:body", "", SKIPB)],
     "impl_has_trait": [("@entry", "", "proof { reveal(Parser::wf); }")],
     "type_atom": [("@entry", "", "let ghost p0 = *p;"),
@@ -270,12 +300,26 @@ pub proof fn lemma_pop_open(p0: Parser, s2: Parser, q: Parser)
     requires p0.wf(), s2.wf(), s2.events@ == p0.events@.push(Event::Open { kind: MySyntaxKind::TombStone, forward_parent: None }),
         q.events@ == s2.events@.drop_last(), q.input == s2.input, q.fuel == s2.fuel, q.diagnostics == s2.diagnostics,
         q.filename == s2.filename, q.stuck_reported == s2.stuck_reported,
-    ensures q.wf(), q.events@ == p0.events@, events_extend(p0.events@, q.events@), mu(q) == mu(s2), at_eof(q) == at_eof(s2),
+    ensures q.wf(), q.events@ == p0.events@, events_extend(p0.events@, q.events@, -1), mu(q) == mu(s2), at_eof(q) == at_eof(s2),
         stalled(q) == stalled(s2),
 {
     reveal(Parser::wf); reveal(mu); reveal(at_eof);
     assert(q.events@ =~= p0.events@);
     lemma_count_adv_push(p0.events@, Event::Open { kind: MySyntaxKind::TombStone, forward_parent: None });
+}
+
+// closing the marker at index 0 (the FILE node) over a stream whose prefix depths are all >= 0 and whose total is 0
+// yields exactly one well-nested tree
+pub proof fn lemma_file_balanced(eb: Seq<Event>, ea: Seq<Event>)
+    requires pd_ok(eb), pd(eb, eb.len() as int) == 0, eb.len() >= 1, is_tomb(eb[0]),
+        ea == eb.update(0, Event::Open { kind: MySyntaxKind::FILE, forward_parent: None }).push(Event::Close),
+    ensures balanced(ea),
+{
+    lemma_pd_close(eb, 0, MySyntaxKind::FILE);
+    assert forall|i: int| 1 <= i < ea.len() implies #[trigger] pd(ea, i) >= 1 by {
+        assert(pd(eb, i) >= 0);
+        assert(pd(ea, i) == pd(eb, i) + 1);
+    }
 }
 
 pub proof fn lemma_no_eof(s: Seq<TokenKind>)
